@@ -117,8 +117,8 @@ class Patterns:
     """
     Helper patterns, the ones that aren't used at import time are defined lazy.
     """
-    whitespaces = re.compile(r'[^\S\xa0]+')  # include ASCII 160 (non-breaking space)
-    normalize = LazyPattern(r'[^\S\xa0]')
+    whitespaces = re.compile(r'[ \t\n\r]+')  # XML white space only: #x20 | #x9 | #xA | #xD
+    normalize = LazyPattern(r'[\t\n\r]')
     ncname = LazyPattern(r'^[^\d\W][\w.\-\u00B7\u0300-\u036F\u203F\u2040]*$')
     numeric_literal = LazyPattern(r'^[+-]?(?:[0-9]+(?:\.[0-9]*)?|\.[0-9]+)(?:[Ee][+-]?[0-9]+)?$')
     extended_qname = LazyPattern(
